@@ -524,7 +524,8 @@ def apply_hoist(toks, hoist, hits):
         e = expr_end(toks, k)
         cut = toks[k:e]
     rep = T(call)
-    rep[0].trivia = toks[k].trivia
+    if rep:
+        rep[0].trivia = toks[k].trivia
     hits[rule] = hits.get(rule, 0) + 1
     return toks[:k] + rep + toks[e:], cut
 
